@@ -20,43 +20,24 @@ theorem hassh_field_selection :
       "mac_algorithms_server_to_client", "compression_algorithms_server_to_client"] := by
   decide +kernel
 
-/-- FULL statement: for EVERY accepted KEXINIT the two preimages are the wire strings, ';'-joined -/
-def hassh_conforms_full : Prop :=
-  ∀ (b : Bytes) (k : KexInit) (n : Nat), kexInitCodec.parse b = .ok (k, n) →
+/-- FULL statement (it was false while a name-list with a trailing comma was accepted): for EVERY
+accepted KEXINIT the HASSH and HASSH-server preimages are the name-list strings of the wire,
+';'-joined — unknown names, empty lists, order and all -/
+theorem hassh_conforms (b : Bytes) (k : KexInit) (n : Nat) (h : kexInitCodec.parse b = .ok (k, n)) :
     (∃ p, hasshPreimage k = .ok p ∧ Spec.Ssh.hasshPreimageOfWire b = some p) ∧
-    (∃ p, hasshServerPreimage k = .ok p ∧ Spec.Ssh.hasshServerPreimageOfWire b = some p)
+    (∃ p, hasshServerPreimage k = .ok p ∧ Spec.Ssh.hasshServerPreimageOfWire b = some p) :=
+  Ssh.hassh_conforms h
 
 /-- a KEXINIT whose `kex_algorithms` string is `a,` (trailing comma; not a conformant name-list) -/
 def trailingCommaKexInit : Bytes :=
   [20] ++ List.replicate 16 0 ++ [0, 0, 0, 2, 0x61, 0x2c] ++ List.replicate 36 0 ++ [0] ++ [0, 0, 0, 0]
 
-/-- it is false: the parser accepts `a,` as `['a']`, so the code hashes `a;;;` where the wire says `a,;;;` -/
-theorem hassh_conforms_full_fails : ¬ hassh_conforms_full := by
-  intro h
-  have hp : kexInitCodec.parse trailingCommaKexInit =
-      .ok (⟨List.replicate 16 0, [.other [0x61]], [], [], [], [], [], [], [], [], [], false, 0⟩, 64) := by
-    decide +kernel
-  obtain ⟨⟨p, h1, h2⟩, _⟩ := h _ _ _ hp
-  have e1 : hasshPreimage ⟨List.replicate 16 0, [.other [0x61]], [], [], [], [], [], [], [], [], [], false, 0⟩ =
-      .ok [0x61, 0x3b, 0x3b, 0x3b] := by decide +kernel
-  have e2 : Spec.Ssh.hasshPreimageOfWire trailingCommaKexInit = some [0x61, 0x2c, 0x3b, 0x3b, 0x3b] := by
-    decide +kernel
-  rw [e1] at h1
-  rw [e2] at h2
-  cases h1
-  exact absurd h2 (by decide)
+/-- the former counter-example is rejected now -/
+theorem trailing_comma_rejected : kexInitCodec.parse trailingCommaKexInit = .error .invalidValue := by
+  decide +kernel
 
-/-- the strongest true statement: for every accepted KEXINIT none of whose name-list strings ends in
-a comma — every RFC-conformant one — both preimages are exactly the wire strings: unknown names,
-empty lists, order and all -/
-theorem hassh_conforms_partial (b : Bytes) (k : KexInit) (n : Nat) (h : kexInitCodec.parse b = .ok (k, n))
-    (hc : NoTrailingComma b) :
-    (∃ p, hasshPreimage k = .ok p ∧ Spec.Ssh.hasshPreimageOfWire b = some p) ∧
-    (∃ p, hasshServerPreimage k = .ok p ∧ Spec.Ssh.hasshServerPreimageOfWire b = some p) :=
-  Ssh.hassh_conforms_partial h hc
-
-/-- without any side condition: every accepted KEXINIT carries ten complete name-list strings and
-each algorithm list of the parsed object is its wire string, up to the one tolerated trailing comma -/
+/-- every accepted KEXINIT carries ten complete name-list strings and each algorithm list of the
+parsed object, joined by commas, is exactly its wire string -/
 theorem kexinit_lists_are_wire_strings (b : Bytes) (k : KexInit) (n : Nat) (h : kexInitCodec.parse b = .ok (k, n)) :
     ∃ s1 s2 s3 s4 s5 s6 s7 s8 s9 s10 rest,
       Spec.Ssh.kexInitStrings b = some ([s1, s2, s3, s4, s5, s6, s7, s8, s9, s10], rest) ∧
